@@ -84,6 +84,12 @@ impl StateMachine<'_> {
     pub fn handle_grep_line(&mut self) -> std::io::Result<bool> {
         self.painter.emit()?;
 
+        // --color-only promises one output line per input line showing the input text;
+        // grep rendering adds and rewrites lines.
+        if self.config.color_only {
+            return Ok(false);
+        }
+
         let (previous_path, previous_line_type, previous_line, try_parse) = match &self.state {
             State::Grep(_, line_type, path, line_number) => {
                 (Some(path.clone()), Some(line_type), line_number, true)
